@@ -93,61 +93,36 @@ class SliceInner:
 def _slice_inner(slize: Slice) -> SliceInner:
     """Calculate the inner resolved fields for `slize`"""
 
+    # Note the `width` helper also covers references, which do not have a `width` attribute.
+    from .elab.helpers.width import width as width_of
+
     parent = slize.parent
     index = slize.index
+    parent_width = width_of(parent)
 
     if isinstance(index, int):
-        if index >= parent.width:
+        if index >= parent_width or index < -parent_width:
             raise ValueError(f"Out-of-bounds index {index} into {parent}")
         if index < 0:
-            index += parent.width
+            index += parent_width
         return SliceInner(top=index + 1, bot=index, step=1, width=1)
 
     if isinstance(index, slice):
-        # Note these `slice` attributes are descriptor-things, and they get weird, fast.
-        # Extracting their three index fields the most-hardest way via `__getattribute__` seems to work cleanest.
-        start = slice.__getattribute__(index, "start")
-        stop = slice.__getattribute__(index, "stop")
-        step = slice.__getattribute__(index, "step")
+        # Normalize exactly as Python sequences do. Raises a `ValueError` for zero-valued `step`.
+        start, stop, step = index.indices(parent_width)
+        # The number of selected bits
+        width = len(range(start, stop, step))
+        if width == 0:
+            raise ValueError(f"Empty slice {index} into {parent}")
+        # The last selected bit
+        last = start + (width - 1) * step
 
-        step = 1 if step is None else step
-        if step == 0:
-            raise ValueError(f"slice step cannot be zero")
-        elif step < 0:
-            # Here `top` gets a "+1" since `start` is *inclusive*, while `bot` gets "+1" as `stop` is *exclusive*.
-            top = (
-                parent.width
-                if start is None
-                else start + 1
-                if start >= 0
-                else parent.width + start + 1
-            )
-            bot = (
-                0
-                if stop is None
-                else stop + 1
-                if stop >= 0
-                else parent.width + stop + 1
-            )
-            # Align bot with the step
-            bot += (top - bot) % abs(step)
+        # `bot` is the lowest selected index (inclusive), `top` the highest (exclusive).
+        # Positive steps select `bot, bot + step, ...`, negative steps select `top - 1, top - 1 + step, ...`.
+        if step > 0:
+            top, bot = last + 1, start
         else:
-            # Here `start` and `stop` match `top` and `bot`'s inclusive/exclusivity.
-            # No need to add any offsets.
-            top = (
-                parent.width
-                if stop is None
-                else stop
-                if stop >= 0
-                else parent.width + stop
-            )
-            bot = 0 if start is None else start if start >= 0 else parent.width + start
-            # Align top with the step
-            top -= (top - bot) % step
-
-        width = (top - bot) // step
-
-        # Create and return our Slice. More checks are done in its constructor.
+            top, bot = start + 1, last
         return SliceInner(top=top, bot=bot, step=step, width=width)
 
     # Shouldn't be reachable, but blow up if we (somehow) get here.
